@@ -299,6 +299,16 @@ func genC09(repo string) (string, error) {
 		}
 	}
 
+	// the paths that touch a running operator outside Dispatch: the push loop (incl. its "region disappeared" branch)
+	// and GetOpInfluence (CheckTimeout / CheckSuccess on every running operator)
+	calls2 := set("pollNeedDispatchRegion", "Dispatch", "GetRegion", "removeOperatorLocked", "Cancel", "buryOperator", "Check",
+		"CheckTimeout", "CheckSuccess", "getNextPushOperatorTime", "Pop", "Push", "Before")
+	for _, fn := range []string{"pollNeedDispatchRegion", "PushOperators", "GetOpInfluence"} {
+		if err := o.skeleton(cf, "OperatorController", fn, "skel_oc_"+fn, goast.SkelOpt{Calls: calls2, Conds: true, Branches: true}); err != nil {
+			return "", err
+		}
+	}
+
 	hf, err := goast.Load(repo, "server/schedule/hbstream/heartbeat_streams.go")
 	if err != nil {
 		return "", err
